@@ -56,6 +56,7 @@ class Oracle(object):
 class C20(Oracle):
     prop = 'C20'
     IGNORE = ('cbs',)
+    wants_shadow = True
 
     def diff(self, a, b):
         for k in a:
@@ -90,6 +91,18 @@ class C20(Oracle):
                              'before': short(d[1]), 'after': short(d[2]),
                              'write_set': sorted(st.wset), 'outcome': st.outcome}, culprit)
                 return
+        # -- a write interleaved with writes on OTHER objects (re-entrant callback) ends exactly as
+        #    the same write does without the interleaving
+        sh = st.extra.get('shadow')
+        if sh is not None and st.outcome == 'ok' and w.slots[st.dest].alive:
+            a, b = w.snap_obj(w.slots[st.dest].obj), w.snap_obj(sh)
+            for k in ('fmt', 'codes', 'status', 'n_int', 'upper', 'lower', 'precision', 'dtype'):
+                if not same(a[k], b[k]):
+                    w.violation('C20', 'reentrancy-interference', st,
+                                {'field': k, 'with_interleaved_writes': short(a[k]),
+                                 'same_write_alone': short(b[k]), 'callback_site': st.extra.get('f4_site'),
+                                 'nested_ops': [n.op['op'] for n in st.nested]}, culprit)
+                    return
         # -- write-through of indexed writes
         if st.kind == 'indexed' and st.outcome == 'ok' and st.wthrough is not None and not st.nested:
             r = self.check_wthrough(w, st)
